@@ -1,0 +1,14 @@
+//go:build verif
+
+package phase2
+
+// VerifPivotsHook, when set, is told how the network simplex pivot loop ended: the number of pivots,
+// the iteration budget, whether a tree edge with negative cut value was still pending (i.e. the loop
+// stopped on the budget or for lack of a replacement edge, not on optimality) and the node count.
+var VerifPivotsHook func(pivots, maxitr int, pending bool, nodes int)
+
+func verifPivots(pivots, maxitr int, pending bool, nodes int) {
+	if VerifPivotsHook != nil {
+		VerifPivotsHook(pivots, maxitr, pending, nodes)
+	}
+}
